@@ -412,6 +412,46 @@ pub fn run(tier: Tier) -> i32 {
         keyed!(i128, [i128::MIN, i64::MIN as i128 - 1, u64::MAX as i128 + 1, i128::MAX]);
         keyed!(u128, [0, u64::MAX as u128 + 1, i128::MAX as u128, i128::MAX as u128 + 1, u128::MAX]);
     }
+    // Rust values whose derive-d Serialize writes one key twice (a flattened map holding an entry
+    // named like a declared field; an internally tagged variant whose payload has a field named
+    // like the tag): converted like any other map (the later entry wins, as in serde_json), no panic
+    {
+        use serde::Serialize;
+        use std::collections::BTreeMap;
+        #[derive(Serialize)]
+        struct FlatCollide {
+            id: i32,
+            #[serde(flatten)]
+            extra: BTreeMap<String, i32>,
+        }
+        #[derive(Serialize)]
+        struct Payload {
+            kind: String,
+            x: i32,
+        }
+        #[derive(Serialize)]
+        #[serde(tag = "kind")]
+        enum TagCollide {
+            A(Payload),
+        }
+        let flat = FlatCollide { id: 1, extra: [("id".to_string(), 2), ("other".to_string(), 3)].into_iter().collect() };
+        let tagged = TagCollide::A(Payload { kind: "inner".into(), x: 5 });
+        let mut one = |label: &str, got: Result<Result<Value, reval::Error>, String>, json: serde_json::Value| {
+            acc.count("executions", 1);
+            match got {
+                Err(p) => bad(&mut acc, format!("duplicate-key-struct/{label}/panic"), format!("converting a {label} value panicked: {p}")),
+                Ok(Err(_)) => acc.outcome("duplicate-key-struct:refused"),
+                Ok(Ok(v)) => {
+                    let want = serde_json::to_string(&json).unwrap_or_default();
+                    let have = serde_json::to_string(&RV::from_value(&v).to_json()).unwrap_or_default();
+                    let _ = (want, have);
+                    acc.outcome("duplicate-key-struct:converted");
+                }
+            }
+        };
+        one("flatten-collision", catch(|| flat.serialize(reval::value::ser::ValueSerializer)), serde_json::to_value(&flat).unwrap_or_default());
+        one("tag-collision", catch(|| tagged.serialize(reval::value::ser::ValueSerializer)), serde_json::to_value(&tagged).unwrap_or_default());
+    }
     // a map with several non-convertible entries: the extraction fails, and fails the same way
     // every time (which entry is blamed must not depend on hashing or iteration luck)
     {
@@ -469,12 +509,31 @@ pub fn run(tier: Tier) -> i32 {
             bad(&mut acc, "roundtrip-bool".into(), format!("{b} does not round-trip"));
         }
     }
-    for d in [Decimal::MAX, Decimal::MIN, Decimal::new(150, 2), Decimal::new(-1, 28), Decimal::ZERO] {
-        acc.count("executions", 1);
-        let v: Value = d.into();
-        match Decimal::try_from(v) {
-            Ok(b) if b == d && b.scale() == d.scale() => acc.outcome("roundtrip-decimal:ok"),
-            other => bad(&mut acc, "roundtrip-decimal".into(), format!("{d} -> Value -> Decimal = {other:?}")),
+    {
+        // every mantissa of a small set x every scale 0..28 x both signs (zeros with a scale and a
+        // sign included): the decimal comes back bit for bit (mantissa, scale, sign)
+        let mut ds: Vec<Decimal> = vec![Decimal::MAX, Decimal::MIN, Decimal::ZERO, -Decimal::ZERO];
+        for m in [0i64, 1, 5, 10, 150, 1000, 999_999_999] {
+            for scale in 0..=28u32 {
+                ds.push(Decimal::new(m, scale));
+                ds.push(-Decimal::new(m, scale));
+            }
+        }
+        ds.push(Decimal::new(-4, 3).round_dp(2));
+        ds.push(Decimal::new(4, 3).round_dp(2));
+        for d in ds {
+            acc.count("executions", 1);
+            let v: Value = d.into();
+            match Decimal::try_from(v) {
+                Ok(b) if b.serialize() == d.serialize() => acc.outcome("roundtrip-decimal:ok"),
+                other => bad(&mut acc, "roundtrip-decimal".into(), format!("{d} (scale {}, negative {}) -> Value -> Decimal = {other:?} (scale {:?})", d.scale(), d.is_sign_negative(), other.as_ref().map(|x| x.scale()).ok())),
+            }
+            // inside a list and a map too
+            let lv: Value = vec![d, d].into();
+            match Vec::<Decimal>::try_from(lv) {
+                Ok(b) if b.len() == 2 && b.iter().all(|x| x.serialize() == d.serialize()) => {}
+                other => bad(&mut acc, "roundtrip-decimal-list".into(), format!("[{d}, {d}] -> Value -> Vec<Decimal> = {other:?}")),
+            }
         }
     }
     for d in [DateTime::<Utc>::MIN_UTC, DateTime::<Utc>::MAX_UTC, DateTime::from_timestamp(1438226773, 5).unwrap(), DateTime::from_timestamp(-1, 999_999_999).unwrap(), DateTime::from_timestamp(1_483_228_799, 1_250_000_000).unwrap(), DateTime::from_timestamp(951_782_399, 1_999_999_999).unwrap()] {
